@@ -24,6 +24,6 @@ def main(chk):
 MANIFEST = {
     'category': 'proof',
     'technique': 'Coq: specification merge from the Decode documentation, three models (reflection, generated fast path, builtin switch), theorems on nil/paths/idempotence with refutations for the two defects found + vm_compute correspondence (first and second decode) + direct merge/idempotence oracle over 5 formats, with and without codec.notfastpath',
-    'text': 'see evidence',
-    'note': 'see evidence',
+    'text': 'C19_nil / C19_nil_impl: a stream nil gives the zero value for every type, previous content and option vector in all three implementations (reflection, generated fast path, builtin switch) and in the spec; C19_nil_field + C19_nil_field_refuted (F19-1: non-nil pointer struct field keeps the pointer); C19_paths_slice / C19_paths_map: fast path = reflection path for slices and maps of scalars, all lengths; C19_paths_refuted (F19-2: []interface{} fast path ignores SliceElementReset); C19_merge_partial (scalars) + C19_merge_refuted; C19_idem_partial, C19_idem_nil. Nested merge / keep / idempotence are tied by re-running the model on every observed first and second decode and by a merge oracle written from the Decode docs, five formats, with and without codec.notfastpath.',
+    'note': 'Repaired through the check: F19-3 (kSlice merged into uncleared memory / stale capacity beyond the original length). Recorded: F19-1, F19-2. Partial: full-strength C19_merge/C19_keep/C19_idem for nested types are not proved in Coq.',
 }
